@@ -216,6 +216,68 @@ def _prog_bytes(seq: List[bytes]) -> bytes:
     return b"".join(seq)
 
 
+def program_divergence(py, o, mem, fill, nsteps):
+    """First divergence between the per-step traces of the two cores (None when they agree)."""
+    pt, rt = py.get("trace", []), o.get("trace", [])
+    bad = None
+    for k in range(min(len(pt), len(rt))):
+        for name in pycpu.ARCH_REGS:
+            if pt[k][name] != rt[k][name] and not (name == "F" and not ((pt[k]["F"] ^ rt[k]["F"]) & 0xFC)):
+                bad = (k, name, pt[k][name], rt[k][name])
+                break
+        if bad:
+            break
+    if bad is None and len(pt) != len(rt):
+        bad = (min(len(pt), len(rt)), "steps-executed", len(pt), len(rt))
+    if bad is None and final_mem_differs(py, o, mem, fill):
+        bad = (nsteps, "memory", 0, 0)
+    return bad
+
+
+def _shard_flow(args):
+    """Control-flow scripts (mc/flow.py): calls, far calls, jumps, returns, software interrupt, pushes in every order."""
+    from .. import flow
+    seqs, st = args
+    h = rb.harness()
+    vb = VB()
+    n = 0
+    built = []
+    for seq in seqs:
+        r = flow.build(seq, st)
+        if r is not None:
+            built.append((seq, r))
+    for i in range(0, len(built), 200):
+        part = built[i:i + 200]
+        outs = h.batch([rs_req(r[0], r[1], r[2], steps=len(seq), trace=True) for seq, r in part])
+        for (seq, (regs, mem, fill, pcs)), o in zip(part, outs):
+            py = pycpu.run(regs, mem, fill, steps=len(seq), trace=True)
+            n += 1
+            wit = {"flow": list(seq), "state": st}
+            if (o.get("panic") or bool(py.get("err")) != bool(o.get("err"))) and not any(t["F"] & 0xFC for t in o.get("trace", [])):
+                vb.add("C06/flow/error-one-side/" + flow.name(seq), f"script {flow.name(seq)}: python err={py.get('err')} rust={o.get('err') or o.get('panic')}", wit)
+                continue
+            # F bits 2..7 (kept by the Rust core, dropped by the Python core: finding F-C06-f-upper-bits) are masked here so
+            # that they do not hide what happens afterwards; a divergence that follows such a difference is labelled
+            rt = o.get("trace", [])
+            tainted_at = next((k for k, t in enumerate(rt) if t["F"] & 0xFC), None)
+            for t in rt:
+                t["F"] &= 0x03
+            for t in py.get("trace", []):
+                t["F"] &= 0x03
+            bad = program_divergence(py, o, mem, fill, len(seq))
+            if bad and tainted_at is not None and tainted_at < bad[0]:
+                vb.add(f"C06/flow/after-f-upper-bits/{seq[min(bad[0], len(seq) - 1)]}",
+                       f"control-flow script {list(seq)} diverges at step {bad[0]} after the Rust core restored F bits 2..7 at step {tainted_at}", wit)
+                continue
+            if bad:
+                k, nm, a, b = bad
+                fld = "reg:" + nm if nm in pycpu.ARCH_REGS else nm
+                ctxs = flow.name(seq[:k + 1]) if k < len(seq) else flow.name(seq)
+                vb.add(f"C06/flow/{fld}/{ctxs}", f"control-flow script {list(seq)} laid out at {[hex(x) for x in pcs]} diverges at step {k} "
+                       f"({seq[min(k, len(seq) - 1)]}): {nm} python {a:#x} rust {b:#x}", wit)
+    return {"n": n, "vb": vb}
+
+
 def _shard_programs(args):
     seqs, st, steps = args
     h = rb.harness()
@@ -239,19 +301,7 @@ def _shard_programs(args):
                 vb.add("C06/program/error-one-side/" + "+".join(_mnemonic(x) for x in seq), f"program {[s.hex() for s in seq]}: python err={py.get('err')} rust={o.get('err') or o.get('panic')}",
                        {"program": [s.hex() for s in seq], "state": st, "steps": nsteps})
                 continue
-            pt, rt = py.get("trace", []), o.get("trace", [])
-            bad = None
-            for k in range(min(len(pt), len(rt))):
-                for name in pycpu.ARCH_REGS:
-                    if pt[k][name] != rt[k][name] and not (name == "F" and not ((pt[k]["F"] ^ rt[k]["F"]) & 0xFC)):
-                        bad = (k, name, pt[k][name], rt[k][name])
-                        break
-                if bad:
-                    break
-            if bad is None and len(pt) != len(rt):
-                bad = (min(len(pt), len(rt)), "steps-executed", len(pt), len(rt))
-            if bad is None and final_mem_differs(py, o, mem, fill):
-                bad = (nsteps, "memory", 0, 0)
+            bad = program_divergence(py, o, mem, fill, nsteps)
             if bad:
                 k, name, a, b = bad
                 mns = "+".join(_mnemonic(x) for x in seq) if steps is None else "loop:" + "+".join(_mnemonic(x) for x in seq)
@@ -297,7 +347,12 @@ def run(ctx) -> None:
     resP = pmap(_shard_programs, [(s, st, None) for st in (st_p, st_p2) for s in chunks(seqs, nproc())])
     loops = [[bytes.fromhex(x) for x in lp] for lp in LOOPS]
     resL = pmap(_shard_programs, [([lp], st_p, 64 if ctx.thorough else 24) for lp in loops])
-    for r in res + resP + resL:
+    from .. import flow
+    fl = list(flow.scripts(5 if ctx.thorough else 4))
+    resF = pmap(_shard_flow, [(c, st_p) for c in chunks(fl, nproc() * 2)])
+    ctx.coverage["control_flow_scripts"] = {"max_length": 5 if ctx.thorough else 4, "alphabet": flow.OPS, "scripts": len(fl),
+                                            "laid_out_and_compared": sum(r["n"] for r in resF)}
+    for r in res + resP + resL + resF:
         ctx.merge_bucket(r["vb"])
     n = sum(r["n"] for r in res)
     ctx.level = "exploration"
@@ -330,6 +385,13 @@ def replay(ctx, w) -> Optional[str]:
     rb.build()
     h = rb.harness()
     vb = VB()
+    if "flow" in w:
+        st = w["state"]
+        st["bpx"] = tuple(st["bpx"])
+        r = _shard_flow(([tuple(w["flow"])], st))
+        for sig, (cnt, wl) in r["vb"].d.items():
+            return wl[0][0]
+        return None
     if "program" in w:
         seq = [bytes.fromhex(x) for x in w["program"]]
         st = w["state"]
